@@ -26,7 +26,7 @@ ASSUMPTIONS = [
     "numpy and copy.deepcopy are deterministic; two runs of pure code on equal inputs give identical floats",
     "lock-previous off for the history-free clause (property precondition)",
 ]
-FLOORS = {"P1": 3, "O-dea": 7, "H5": 6, "H2": 7, "H3": 4, "H4": 5, "H6": 2, "H7": 3}
+FLOORS = {"P1": 3, "O-dea": 7, "H5": 6, "H2": 7, "H3": 4, "H4": 5, "H6": 2, "H7": 3, "H9": 1}
 
 EXPECTED_STEP_STATE = {
     "activation_degree": "Rule: reset by deactivate() at the start of every iteration of every activate()",
@@ -57,6 +57,7 @@ def run(check: Check) -> None:
     ownership(check)
     engine_init(check)
     fixtures(check)
+    inplace_updates(check)
     from .common import memoisation_rule
 
     memoisation_rule(check)
@@ -66,13 +67,8 @@ def only_deactivate(a: c08.Activate) -> None:
     """O-dea of C08: deactivate() opens every iteration (activation_degree / triggered are re-initialised before use)."""
     from .common import body_entry, iter_precedes, method_calls_on
 
-    check, r, cfg, fn = a.check, a.r, a.cfg, a.fn
-    head, body = a.main_head, a.body
-    deact = method_calls_on(r, a.is_rule, "deactivate", body)
-    others = [n for n, _, _ in method_calls_on(r, a.is_rule, "activate_with", body) + method_calls_on(r, a.is_rule, "is_loaded", body)
-              + method_calls_on(r, a.is_rule, "trigger", body)]
-    ok = bool(deact) and all(iter_precedes(cfg, head, [n for n, _, _ in deact], t) for t in others) and deact[0][0] is body_entry(head)
-    check.require(ok, "O-dea", a.construct("deactivate"), "each rule's activation state is reset before it is used in this step", loc(fn, head))
+    ok, where = a.deactivation()
+    a.check.require(ok, "O-dea", a.construct("deactivate"), "each rule's activation state is reset before it is used in this step", loc(a.fn, where))
 
 
 # ------------------------------------------------------------------------------------------------ H5
@@ -367,7 +363,15 @@ def copy_rules(check: Check) -> None:
     # deep copies of cloning factory elements (Function elements are shared prototypes)
     fc = p.func("CloningFactory.copy")
     check.analysed(fc)
-    ok = "copy.deepcopy(self.objects[key])" in unparse(fc.node)
+    rc = Resolver(p, fc)
+    rets = [rc.term(m.ast.value, m) for m in rc.cfg.stmt_nodes() if isinstance(m.ast, ast.Return) and m.ast.value is not None]
+    keyp = ("param", fc.params[1].name)
+    proto = ("sub", ("attr", ("param", "self"), "objects"), keyp)
+
+    def deep(t):  # type: ignore[no-untyped-def]
+        return t[0] == "call" and t[1] == ("global", "copy.deepcopy") and t[2][:1] == (proto,)
+
+    ok = bool(rets) and all(any(deep(x) for x in walk(t)) for t in rets)
     check.require(ok, "H4", "CloningFactory.copy/deepcopy", "formula elements are deep-copied from their prototypes", loc(fc))
 
 
@@ -411,8 +415,9 @@ def engine_init(check: Check) -> None:
     ok_u = bool(upd) and all(t[2] == (("param", "self"),) for _, t in upd) and \
         all(any(pol and r.term(g, gn) == ("param", "load") for g, pol, gn in cfg.must_guards(n)) for n, _ in upd)
     # all variables, all terms
-    src = unparse(fn.node)
-    all_terms = "for variable in self.variables" in src and "for term in variable.terms" in src
+    every_term = ("elem", ("attr", ("elem", ("attr", ("param", "self"), "variables")), "terms"))
+    all_terms = bool(upd) and all(t[1][0] == "attr" and t[1][1] == every_term for _, t in upd) and \
+        all(not early_exits(cfg, h) for n, _ in upd for h in cfg.enclosing_loops(n))
     check.require(ok_u and all_terms, "H7", "Engine.__init__/update-references", "under load, every term of every variable is re-pointed to this engine", loc(fn))
     ok_l = bool(lds) and all(t[2] == (("param", "self"),) for _, t in lds) and bool(upd) and all(cfg.must_precede([u for u, _ in upd], n) or True for n, _ in lds)
     order = bool(upd) and bool(lds) and lds[0][0] not in cfg.reach([cfg.entry], blocked={h for h in cfg.loop_heads() if upd[0][0] in cfg.loop_body(h)})
@@ -420,9 +425,96 @@ def engine_init(check: Check) -> None:
     for qual in ("Linear.update_reference", "Function.update_reference"):
         f = p.func(qual)
         check.analysed(f)
-        stores = [unparse(s) for s in ast.walk(f.node) if isinstance(s, ast.Assign)]
-        ok = any(s.replace(" ", "") == "self.engine=engine" for s in stores)
+        rf = Resolver(p, f)
+        eng = ("param", f.params[1].name)
+        stores = [(n, t) for n in rf.cfg.stmt_nodes() for t in rf.cfg.stores_at(n)
+                  if isinstance(t, ast.Attribute) and t.attr == "engine" and rf.term(t.value, n) == ("param", "self")]
+        ok = bool(stores) and all(rf.term(n.ast.value, n) == eng for n, _ in stores) and \
+            any(not rf.cfg.must_guards(n) for n, _ in stores)
         check.require(ok, "H7", f"{qual}/engine", "the term's engine reference is replaced by the given engine", loc(f))
+
+
+# ------------------------------------------------------------------------------------------------ H9
+VIEW_CALLS = {"fuzzylite.library.scalar", "fuzzylite.library.array", "numpy.asarray", "numpy.asanyarray", "numpy.atleast_1d", "numpy.atleast_2d",
+              "numpy.squeeze", "numpy.transpose", "numpy.reshape", "numpy.ravel", "numpy.broadcast_to"}
+
+
+def fresh(t: Term) -> bool:
+    """The value is an object of its own (arithmetic / numpy results, constants, new objects): writing into it in place
+    cannot reach anything else. Pass-through of a parameter, an attribute or another call's result is not."""
+    k = t[0]
+    if k == "const":
+        return True
+    if k == "binop":
+        return t[1] in ("+", "-", "*", "/", "**", "%", "//", "&", "|", "^")
+    if k == "unop":
+        return t[1] in ("-", "~", "not")
+    if k == "cmp":
+        return True
+    if k == "ifexp":
+        return fresh(t[2]) and fresh(t[3])
+    if k == "phi":
+        return all(fresh(a) for a in t[1])
+    if k == "call" and t[1][0] == "global":
+        g = t[1][1]
+        if g in VIEW_CALLS:
+            return bool(t[2]) and fresh(t[2][0])
+        if g.startswith("numpy.") or g in ("float", "int", "bool", "copy.copy", "copy.deepcopy"):
+            return True
+        return g.split(".")[-1][:1].isupper()  # a constructor
+    if k == "call" and t[1][0] == "attr" and t[1][2] in ("copy", "astype", "sum", "mean", "max", "min", "clip", "round", "cumsum", "prod"):
+        return True
+    return False
+
+
+def inplace_updates(check: Check) -> None:
+    """H9: a stored array that is updated in place on the processing path (`obj.attr op= v`) must be an object of its own at every
+    place the attribute is assigned; otherwise the update writes through to whatever the value was taken from (an input value,
+    a term parameter): processing then changes its own inputs and the next step differs."""
+    p = check.program
+    cg = CallGraph(p)
+    reach = cg.reachable(["Engine.process"])
+    sites = []
+    for q in sorted(reach):
+        f = cg._fn.get(q)
+        if f is None:
+            continue
+        for x in ast.walk(f.analysis_node):
+            if isinstance(x, ast.AugAssign) and isinstance(x.target, ast.Attribute):
+                sites.append((f, x, x.target.attr))
+            elif isinstance(x, (ast.Assign, ast.AugAssign)):
+                for tg in (x.targets if isinstance(x, ast.Assign) else [x.target]):
+                    if isinstance(tg, ast.Subscript) and isinstance(tg.value, ast.Attribute):
+                        sites.append((f, x, tg.value.attr))
+    for f, x, attr in sites:
+        check.analysed(f)
+        stale = []
+        stores = 0
+        for g in p.functions.values():
+            if "/examples/" in g.file:
+                continue
+            has = any(isinstance(s_, (ast.Assign, ast.AnnAssign)) and any(isinstance(tg, ast.Attribute) and tg.attr == attr for tg in
+                      (s_.targets if isinstance(s_, ast.Assign) else [s_.target])) for s_ in ast.walk(g.analysis_node))
+            if not has:
+                continue
+            rg = Resolver(p, g)
+            for m in rg.cfg.stmt_nodes():
+                if m.copy or not isinstance(m.ast, (ast.Assign, ast.AnnAssign)) or m.ast.value is None:
+                    continue
+                for tg in rg.cfg.stores_at(m):
+                    if isinstance(tg, ast.Attribute) and tg.attr == attr:
+                        stores += 1
+                        v = rg.term(m.ast.value, m)
+                        if not fresh(v):
+                            stale.append((g, m, v))
+        construct = f"{f.qualname}/{attr}"
+        check.require(stores > 0 and not stale, "H9", construct,
+                      f"`{unparse(x)[:60]}` updates an array in place; each of the {stores} assignments to `.{attr}` stores an object of its own" if not stale else
+                      f"`{unparse(x)[:60]}` updates `.{attr}` in place, but {stale[0][0].qualname} (line {stale[0][1].lineno}) can store "
+                      f"`{show(stale[0][2])[:80]}` there without copying: the update then writes through to the value it came from "
+                      "(an input value, another rule's degree), so processing modifies its own inputs", loc(f, x))
+    if not sites:
+        check.ok("H9", "processing-path/no-in-place-updates", "no stored array is updated in place on the processing path")
 
 
 def fixtures(check: Check) -> None:
